@@ -374,8 +374,16 @@ func (b *vfC20Builder) buildAlignedReverse() {
 	segs := rapid.IntRange(1, 2).Draw(t, "segments")
 	prevD, prevX := 0, 0
 	for s := 0; s < segs; s++ {
-		d := rapid.IntRange(-3, 3).Draw(t, "edge_delta")
-		x := rapid.OneOf(vfC20EdgeLen, vfC20EdgeLen, rapid.IntRange(8193, vfC20MaxLine)).Draw(t, "edge_line_len")
+		var d, x int
+		if rapid.IntRange(0, 2).Draw(t, "edge_kind") == 0 {
+			// the longest line, ending exactly at / one byte short of the
+			// distance that still holds it
+			d = rapid.SampledFrom([]int{0, 0, -1, -1, 1}).Draw(t, "edge_delta")
+			x = vfC20MaxLine
+		} else {
+			d = rapid.IntRange(-3, 3).Draw(t, "edge_delta")
+			x = rapid.OneOf(vfC20EdgeLen, vfC20EdgeLen, rapid.IntRange(8193, vfC20MaxLine)).Draw(t, "edge_line_len")
+		}
 		dist := vfC20Window - vfC20Limit - d
 		if s > 0 && prevD < 0 {
 			// the previous chosen line is itself the new anchor
@@ -627,7 +635,10 @@ func (c *vfC20Cursor) lookup(line string) (i int, ok bool) {
 
 // seekFailed records a failed seek.
 func (c *vfC20Cursor) seekFailed() {
-	if !c.unknown && c.alts == nil {
+	switch {
+	case c.alts != nil:
+		c.before = -1
+	case !c.unknown:
 		c.before = c.pos
 	}
 	c.unknown, c.alts = true, nil
@@ -679,9 +690,12 @@ func (c *vfC20Cursor) observe(line string, err error) (complaint string) {
 		if !ok {
 			return fmt.Sprintf("after a failed seek the read returned something that is not a stored line: %s", vfC20Short(line))
 		}
-		if i == c.before {
+		switch {
+		case c.before < 0:
+			vfC20.Class("after_failed_seek:position_was_open")
+		case i == c.before:
 			vfC20.Class("after_failed_seek:position_kept")
-		} else {
+		default:
 			vfC20.Class("after_failed_seek:position_moved")
 		}
 		c.set(i + 1)
